@@ -41,7 +41,12 @@ TGT_FORMS = {
     "--module=mod": (["--module=mod"], "module"),
     "-mmod": (["-mmod"], "module"),
     "path": (["script.py"], "path"),
+    # a target spelled like the value given to the database option (the same token twice in one argument vector)
+    "path=p": (["p"], "path"),
+    "-m p": (["-m", "p"], "module"),
 }
+TGT_NAME = {"path=p": "p", "-m p": "p"}
+E2E_TGT = ["-m mod", "--module mod", "--module=mod", "-mmod", "path"]  # the end-to-end facet runs real targets
 TOKENS = ["-d", "--db_path", "--db_path=p", "-dp", "-m", "--module", "--module=mod", "-mmod", "script.py", "mod", "p", "--", "-x", "--colour", "rainbow", ""]
 OWN_SPELLINGS = {"-d", "--db_path", "--db_path=p", "-dp", "-m", "--module", "--module=mod", "-mmod"}
 
@@ -53,7 +58,7 @@ def cli_reference(db: str, tgt: str | None, targs: list[str]) -> dict:
         exp.update(ran=None, argv=None, rc=42)
     else:
         kind = TGT_FORMS[tgt][1]
-        name = "mod" if kind == "module" else "script.py"
+        name = TGT_NAME.get(tgt) or ("mod" if kind == "module" else "script.py")
         exp.update(ran=(kind, name), argv=[name, *targs], rc=0)
     return exp
 
@@ -143,14 +148,14 @@ HELPER_MOD = "vf.helpers.cli_target"
 def _cli_e2e_case(draw, tier):
     return {
         "db": draw(st.sampled_from(sorted(DB_FORMS))),
-        "tgt": draw(st.sampled_from(sorted(TGT_FORMS))),
+        "tgt": draw(st.sampled_from(sorted(E2E_TGT))),
         "targs": draw(st.lists(st.integers(0, len(TOKENS) - 1), max_size=6)),
     }
 
 
 def run_cli_e2e(case, ctx: Ctx) -> None:
     db, tgt = case["db"], case["tgt"]
-    if db not in DB_FORMS or tgt not in TGT_FORMS:
+    if db not in DB_FORMS or tgt not in E2E_TGT:
         raise InvalidCase()
     tmp = tempfile.mkdtemp(prefix="vf-c20-")
     saved_argv, saved_path, saved_env = list(sys.argv), list(sys.path), os.environ.get("VF_CLI_RECORD")
